@@ -197,6 +197,16 @@ func (a vSub) ReceiveMinedHeader(header *types.WorkObject) error { return nil }
 
 var vChdir sync.Once
 
+// vLocDB gives a database the node location a production engine is opened with (leveldb.New /
+// pebble.New take it as a parameter; memorydb reports nil, which makes every record read back from
+// disk decode its addresses relative to the wrong location).
+type vLocDB struct {
+	ethdb.Database
+	loc common.Location
+}
+
+func (d vLocDB) Location() common.Location { return d.loc }
+
 func vMkSlice(cfg *VNodeConfig, ctx int, db ethdb.Database, fresh bool, logger *log.Logger) (*Slice, common.Hash, error) {
 	vChdir.Do(func() {
 		os.Chdir(os.Getenv("VERIF_REPO"))
@@ -284,6 +294,9 @@ func VNewNode(cfg VNodeConfig) (*VNode, error) {
 			db = cfg.NewDB(ctx)
 		} else {
 			db = rawdb.NewMemoryDatabase(n.Logger)
+		}
+		if _, ok := db.(vLocDB); !ok {
+			db = vLocDB{Database: db, loc: vLocFor(ctx)}
 		}
 		sl, gh, err := vMkSlice(&cfg, ctx, db, fresh, n.Logger)
 		if err != nil {
